@@ -28,6 +28,9 @@ def jobs(pid, tier, engine):
     if pid in SEQX or pid in SEQX_ALSO:
         for i in range(ncpu):
             out.append(("seqx", ["seqx", "--property", pid, "--tier", tier, "--shard", f"{i}/{ncpu}"]))
+    if pid == "C19":
+        for i in range(ncpu):
+            out.append(("cfgx", ["cfgx", "--property", pid, "--tier", tier, "--shard", f"{i}/{ncpu}"]))
     if pid in ("C01", "C02"):
         for i in range(ncpu):
             out.append(("shapex", ["shapex", "--property", pid, "--tier", tier, "--shard", f"{i}/{ncpu}"]))
@@ -90,6 +93,32 @@ def evidence(pid, tier, records):
         cov["rule"] = ("breadth-first search over the real cache contents; a state is (store with values/hit counters/ages, queue, ghost ranks, clock phase); "
                        "a transition calls the real get/insert/insert_with_memory or advances the virtual clock; every fastrand draw is a branch; "
                        "exhaustive up to depth_completed per configuration (to closure where configs_closed counts it)")
+    attrs = [v for (e, k, v) in records if k == "ATTR"]
+    inval = [v for (e, k, v) in records if k == "INVALID"]
+    if attrs:
+        cov["cfgx"] = {
+            "decorated_functions_compiled_and_compared": len(attrs),
+            "by_flavour": {fl: sum(1 for a in attrs if a["flavour"] == fl) for fl in ("global", "thread", "async")},
+            "operation_sequences": sum(a["histories"] for a in attrs),
+            "histories_incl_random_answers": sum(a["runs"] for a in attrs),
+            "operations_compared_with_the_twin": sum(a["steps"] for a in attrs),
+            "distinct_observation_prefixes": sum(a["distinct_observations"] for a in attrs),
+            "invalid_corpus": inval[0] if inval else None,
+        }
+        nprog = len(attrs) + (inval[0]["sites"] if inval else 0)
+        cov["programs"] = nprog
+        cov["evaluations"] = cov.get("evaluations", 0) + nprog
+        cov["distinct_nontrivial"] = cov.get("distinct_nontrivial", 0) + len(set(a["attributes"] for a in attrs)) + (inval[0]["invalid_sites"] if inval else 0)
+        cov["states"] = cov.get("states", 0) + cov["cfgx"]["distinct_observation_prefixes"]
+        cov["transitions"] = cov.get("transitions", 0) + cov["cfgx"]["operations_compared_with_the_twin"]
+        cov["traces_validated_against_impl"] = cov.get("traces_validated_against_impl", 0) + cov["cfgx"]["histories_incl_random_answers"]
+        cov["configs"] = cov.get("configs", 0) + len(attrs)
+        cov.setdefault("samples", []).extend([a["sample"] for a in sorted(attrs, key=lambda a: -a["runs"])[:2]] + (inval[0]["samples"][:2] if inval else []))
+        cov["exhaustive"] = False
+        cov["rule"] = (cov.get("rule", "") + " | cfgx: every attribute value in isolation and in the listed pairs (units KB/MB/GB upper and lower case, integer and string byte counts, policies, limits, ttl, "
+                       "frequency_weight float/integer, name, tags/events/dependencies, cache_if, invalidate_on, 0-4 arguments, methods, Result) for sync global, thread and async; each function is driven through every "
+                       "operation sequence of depth 4 (6 for frequency_weight) and compared call for call (body ran / keys held) with the core cache constructed directly with the intended numbers; "
+                       "non-trivial = distinct attribute lists plus invalid attribute lists, each of which must carry a compile error inside its own span; pairwise, not the full product (the core product is covered by the L1 corpus of C01/C04)").strip(" |")
     shapes = [v for (e, k, v) in records if k == "SHAPE"]
     if shapes:
         tuples = sum(x["tuples"] for x in shapes)
